@@ -96,7 +96,7 @@ def correspondence(ctx):
         for _ in range(3):
             t = unicodedata.normalize('NFKC', ' '.join(unicodedata.normalize('NFKC', t).split()).lower())
         return t
-    for c_ in keys[::(16 if ctx.tier == 'quick' else 2)]:
+    for c_ in keys[::(16 if ctx.tier == 'quick' else 5)]:
         for m_ in marks_:
             a_ = chr(c_) + chr(m_)
             b_ = pycanon(a_)
